@@ -1157,5 +1157,6 @@ func genRender(out *Out, r *Rand, tier string) {
 		renderValue(out, genValue(r, -1))
 	}
 	genUpgraded(out, r, tier)
+	genWrongKind(out, r, tier)
 	out.Close("text.Marshal and Encoder.Encode on aircraftlib values (every member of the Z union incl. group, interface and AnyPointer members and discriminants of no member; nested Z lists; PlaneBase/Regression/Aircraft/Counter/Zjob/VoidUnion; Defaults and StackingRoot with every subset of fields unset; enum ordinals out of range; Text/Data with every byte value; boundary integers; special floats) vs the model's render of the stored tree with the exported schema description; the text read back by the extracted reader vs the generated accessors' values. distinct = distinct case line; non-trivial = text longer than ()")
 }
